@@ -88,6 +88,32 @@ Proof. exact tbase_is_recurrence. Qed.
 Example C09_example_storage : state_rec (1/2) 4 (map (stored (1/2)) [1; -1; 0]) = [5/2; -3/4; -3/8].
 Proof. exact example_storage. Qed.
 
+(* ---- rolling horizon (Proofs/C09Rolling.v): splitting the horizon at ANY slot, the state over the whole horizon is the state over the
+        first part followed by the state over the second part started from the state the first part ends in.  This is what a
+        rolling-horizon user relies on when re-basing `start` (storage) or `t_init` (thermal) on the last reported state. ---- *)
+From DK.Proofs Require Import C09Rolling.
+Theorem C09_recurrence_splits_at_any_slot : forall s (u v : list R) prev,
+  state_rec s prev (u ++ v) = state_rec s prev u ++ state_rec s (last (state_rec s prev u) prev) v.
+Proof. exact state_rec_app. Qed.
+
+Theorem C09_storage_rolling_horizon : forall (q q' : sparams R) (r1 r2 : list R),
+  sp_sus q' = sp_sus q -> sp_eff q' = sp_eff q ->
+  sp_start q' * sp_capacity q' = last (sdev_charge q r1) (sp_start q * sp_capacity q) ->
+  sdev_charge q (r1 ++ r2) = sdev_charge q r1 ++ sdev_charge q' r2.
+Proof. exact storage_rolling. Qed.
+
+Theorem C09_thermal_rolling_horizon : forall (q q1 q2 : tparams R) (r1 r2 : list R),
+  tp_ext q = tp_ext q1 ++ tp_ext q2 -> length (tp_ext q1) = length r1 -> length (tp_ext q2) = length r2 ->
+  tp_sus q1 = tp_sus q -> tp_eff q1 = tp_eff q -> tp_init q1 = tp_init q ->
+  tp_sus q2 = tp_sus q -> tp_eff q2 = tp_eff q -> tp_init q2 = last (tdev_r2t q1 r1) (tp_init q) ->
+  tdev_r2t q (r1 ++ r2) = tdev_r2t q1 r1 ++ tdev_r2t q2 r2.
+Proof. exact thermal_rolling. Qed.
+
+Example C09_example_rolling :
+  state_rec (1/2) 4 (map (stored (1/2)) ([1] ++ [-1; 0]))
+  = state_rec (1/2) 4 (map (stored (1/2)) [1]) ++ state_rec (1/2) (5/2) (map (stored (1/2)) [-1; 0]).
+Proof. exact example_rolling. Qed.
+
 (* ---- TDevice._make_t_base and TDevice.r2t regenerated from tdevice.py on every run (Gen/Thermal.v, translator/tdevice_tx.py; every
         attribute they read is checked against __init__ and the properties) ARE the model temperatures of the theorems above ---- *)
 From DK.Gen Require Import Thermal.
